@@ -837,6 +837,66 @@ func ExecDispose(c DCase) *DRun {
 		if parkedNow && run.Lines != nil && m.IsDisposed() {
 			observe("dp run 1 done", "done", "*")
 		}
+	case "force-in-neg-queued":
+		// a mutation waits in the queue with a WhenQueue waiter on its tick; when it finally runs, its
+		// negotiation handler force-disposes the machine and vetoes: the waiter's channel has been
+		// closed by the disposal already - nothing may panic, the caller returns, the waiter is released
+		busy := make(chan struct{})
+		var busyOnce sync.Once
+		unbusy := func() { busyOnce.Do(func() { close(busy) }) }
+		defer unbusy()
+		entered := make(chan struct{}, 1)
+		veto := c.Stage != "accept"
+		if _, err := m.HandlersBindMaps(map[string]am.HandlerNegotiation{
+			one(2) + "Enter": func(e *am.Event) bool {
+				m.DisposeForce()
+				return !veto
+			},
+		}, map[string]am.HandlerFinal{
+			one(1) + "State": func(e *am.Event) {
+				select {
+				case entered <- struct{}{}:
+				default:
+				}
+				select {
+				case <-busy:
+				case <-time.After(2 * time.Second):
+				}
+			},
+		}, am.BindOpts{Id: "forceneg"}); err != nil {
+			fail("bind: %v", err)
+			return run
+		}
+		for _, i := range []int{1, 2} {
+			if m.Is1(one(i)) {
+				m.Remove1(one(i), nil)
+			}
+		}
+		holder := make(chan string, 1)
+		go func() {
+			holder <- guarded(wait, func() { m.Add1(one(1), nil) })
+		}()
+		select {
+		case <-entered:
+		case <-time.After(time.Second):
+			fail("force-in-neg-queued: the busy handler never started")
+			return run
+		}
+		res := m.Add1(one(2), nil)
+		var wq <-chan struct{}
+		if res > am.Queued {
+			wq = m.WhenQueue(res)
+			subs = append(subs, sub{kind: fmt.Sprintf("whenqueue-of-the-disposing-mutation(%d)", res), ch: wq})
+		}
+		unbusy()
+		select {
+		case r := <-holder:
+			if r != "" {
+				fail("the caller draining the queue when a negotiation handler force-disposed the machine: %s", r)
+			}
+		case <-time.After(wait):
+			fail("the caller draining the queue when a negotiation handler force-disposed the machine never returned")
+		}
 	case "mid-dispose":
 		// the disposer is parked at a stage of doDispose; other callers use the machine
 		parkAt.Store(c.Stage)
@@ -1063,6 +1123,9 @@ func GenDCase(r *rand.Rand, trigger string) DCase {
 		for k := 0; k < 2+r.Intn(3); k++ {
 			c.Subs = append(c.Subs, fmt.Sprintf("%s:%d", []string{"when", "whentick1", "whenquery1", "whentime1"}[r.Intn(4)], 1+r.Intn(2)))
 		}
+	case "force-in-neg-queued":
+		c.Handlers = false
+		c.Stage = []string{"veto", "veto", "accept"}[r.Intn(3)]
 	case "unlock-window":
 		c.Handlers = false
 		c.Stage = []string{"dd:unlocked", "dd:unlocked", "dd:disposing", "none"}[r.Intn(4)]
@@ -1074,7 +1137,7 @@ func GenDCase(r *rand.Rand, trigger string) DCase {
 }
 
 var Triggers = []string{"idle-dispose", "idle-force", "idle-parent", "twice", "twice-after", "twice-conc", "dispose+force",
-	"parent+dispose", "in-neg", "in-final", "in-eval", "during-queue", "mid-dispose", "in-tracer-end", "eval-pending", "unlock-window"}
+	"parent+dispose", "in-neg", "in-final", "in-eval", "during-queue", "mid-dispose", "in-tracer-end", "eval-pending", "unlock-window", "force-in-neg-queued"}
 
 // RunDispose: the disposal schedule engine; corpus first, the fixed cases, then
 // every trigger `per` times.
